@@ -8,6 +8,7 @@ pub mod dump;
 pub mod elem;
 pub mod layouts;
 pub mod outcome;
+pub mod par_support;
 pub mod plan;
 pub mod serde_elem;
 pub mod telem;
@@ -43,6 +44,10 @@ pub mod sse {
         use super::*;
         include!("interp_serde.rs");
     }
+    pub mod par {
+        use super::*;
+        include!("interp_par.rs");
+    }
 }
 
 /// Interpreters instantiated against the portable (cfg(miri)) twin of /repo.
@@ -74,6 +79,10 @@ pub mod gen {
         use super::*;
         include!("interp_serde.rs");
     }
+    pub mod par {
+        use super::*;
+        include!("interp_par.rs");
+    }
 }
 
 pub mod specs;
@@ -89,8 +98,18 @@ pub fn run_case(case: &case::Case) -> outcome::Outcome {
         ("set", _) => gen::set::run_case(case),
         ("lay", 0) => sse::lay::run_case(case),
         ("lay", _) => gen::lay::run_case(case),
+        ("par", 0) => sse::par::run_case(case),
+        ("par", _) => gen::par::run_case(case),
         ("serde", 0) => sse::serde_i::run_case(case),
         ("serde", _) => gen::serde_i::run_case(case),
+        ("arith", 2) => {
+            // crash dump of the enumerating runner: both back-ends
+            let o = sse::arith::run_case(case);
+            if o.violation.is_some() {
+                return o;
+            }
+            gen::arith::run_case(case)
+        }
         ("arith", 0) | ("prim", 0) => sse::arith::run_case(case),
         ("arith", _) | ("prim", _) => gen::arith::run_case(case),
         _ => panic!("unknown case kind {}", case.kind),
